@@ -467,7 +467,7 @@ func run(c *enum.Ctx) {
 	var jobsE []jobE
 	cfgE := []jobE{{p: params{4, 16, 2, 8}, tlen: 64, qlen: 70}, {p: params{4, 12, 1, 8}, tlen: 40, qlen: 64}}
 	if !c.Quick {
-		cfgE = append(cfgE, jobE{p: params{4, 16, 2, 8}, tlen: 63, qlen: 70}, jobE{p: params{4, 16, 2, 8}, tlen: 57, qlen: 70}, jobE{p: params{4, 9, 1, 3}, tlen: 30, qlen: 50}, jobE{p: params{3, 8, 1, 4}, tlen: 32, qlen: 50})
+		cfgE = append(cfgE, jobE{p: params{4, 16, 2, 8}, tlen: 63, qlen: 70}, jobE{p: params{4, 16, 2, 8}, tlen: 57, qlen: 70}, jobE{p: params{4, 9, 1, 3}, tlen: 30, qlen: 50}, jobE{p: params{3, 8, 1, 4}, tlen: 29, qlen: 50})
 	}
 	for _, x := range cfgE {
 		for t0 := 0; t0+x.p.N <= x.tlen; t0++ {
